@@ -7,7 +7,7 @@ the harness (vlib.run_cases with a single shard), the singleton histories are th
   * Transfer!RefinedRule{Sizes,Points,Weights} for every distinct observation of a "rule" step,
 and the caller hands every distinct observation of an "xfer" step to TransferCheck!Verdict (the prolongation recomputed by TLC).
 """
-import json, os, zlib
+import json, os, time, zlib
 import concurrent.futures as cf
 import vlib, vmeshlib
 
@@ -82,8 +82,10 @@ def execute(hists, bins, gdir, table, meshes, workers=12):
         h, cases, binary = job
         # fewer than 50 cases -> vlib.run_cases uses exactly one harness process for the whole list, in order
         return vlib.run_cases(binary, cases, tmo=240, shards=1)
+    t0 = time.time()
     with cf.ThreadPoolExecutor(max_workers=workers) as ex:
         results = list(ex.map(one, jobs))
+    print("[hist] %d histories (%d steps) executed, one process each, %.1fs" % (len(jobs), sum(len(j[1]) for j in jobs), time.time() - t0), flush=True)
     return [(h, cases, res) for (h, cases, _), res in zip(jobs, results)]
 
 
